@@ -167,6 +167,9 @@ func (m *M) EDecodeCoords(r int, x, y []byte) {
 
 // ESetRaw puts the projective triple (X : Y : Z), given as canonical integers, into E[r] (accessor).
 func (m *M) ESetRaw(r int, X, Y, Z *big.Int) {
+	mustBeBelow(X, bigP, "ESetRaw X")
+	mustBeBelow(Y, bigP, "ESetRaw Y")
+	mustBeBelow(Z, bigP, "ESetRaw Z")
 	x, y, z := secp256k1.VerifLimbs(m.E[r])
 	*x, *y, *z = montLimbs(X, bigP), montLimbs(Y, bigP), montLimbs(Z, bigP)
 	m.emit("ESetRaw", kv{"r", r + 1}, kv{"x", be32(X)}, kv{"y", be32(Y)}, kv{"z", be32(Z)})
@@ -363,6 +366,7 @@ func (m *M) SDecodeForm(r int, form string, data []byte) {
 
 // SSetInt puts a canonical integer < n into S[r] by writing its Montgomery form (no decoder involved).
 func (m *M) SSetInt(r int, v *big.Int) {
+	mustBeBelow(v, bigN, "SSetInt")
 	setScalar(m.S[r], v)
 	m.emit("SSetInt", kv{"r", r + 1}, kv{"v", be32(v)})
 }
